@@ -411,7 +411,8 @@ def main_check(h, tier, seed, replay=None):
     # ---- cases: corpus first, then exhaustive scopes, then generated
     n = h.QUICK_N if tier == 'quick' else h.THOROUGH_N
     if replay:
-        cases = [json.load(open(replay)).get('case')]
+        _rp = json.load(open(replay))
+        cases = [_rp.get('case') or _rp.get('first_disagreeing_case')]      # the latter: a broken obligation with no failing input (tie disagreement)
     else:
         cases = h.corpus() + list(h.exhaustive_cases(tier)) + list(h.gen_cases(tier, rnd, n))
     terms, idx_of_term = [], []
@@ -457,6 +458,8 @@ def main_check(h, tier, seed, replay=None):
                 t = None
                 violations.append({'case_index': i, 'signature': 'harness:cannot-render-for-the-model:' + type(e).__name__,
                                    'detail': {'error': str(e)[:300]}, 'kind': 'harness'})
+            if isinstance(t, tuple) and t[1] is None:
+                t = None            # (family, no term): not compared with the model
             if t is not None:
                 terms.append(t); idx_of_term.append(i)
         for sk, sv in (obs.get('stats') or {}).items() if isinstance(obs, dict) else []:
